@@ -13,6 +13,8 @@ trap cleanup EXIT
 git -C /repo worktree add --detach $wt HEAD >/dev/null 2>&1 || { echo "MUTPRIV $patch check=$pid rc=2 worktree failed"; exit 2; }
 git -C $wt apply "$patch" || { echo "MUTPRIV $patch check=$pid rc=2 patch does not apply"; exit 2; }
 mkdir -p $hz $out
+# snapshot of the specs too, so that edits made in /verif while this runs cannot skew spec and harness
+cp -r /verif/spec $out/spec
 rsync -a --exclude target --exclude Cargo.lock /verif/harness/ $hz/
 find $hz -name Cargo.toml -exec sed -i "s#\"/repo/#\"$wt/#g; s#\"/repo\"#\"$wt\"#g" {} +
 cp $wt/Cargo.lock $hz/Cargo.lock
@@ -20,7 +22,7 @@ cp $wt/Cargo.lock $hz/Cargo.lock
 cp -a /verif/harness/target $hz/target 2>/dev/null
 ( cd $hz && CARGO_NET_OFFLINE=true cargo build --release --offline -j ${MUT_JOBS:-6} > $out/build.log 2>&1 ) || { echo "MUTPRIV $patch check=$pid rc=2 build failed (see below)"; tail -20 $out/build.log; exit 2; }
 cd /verif
-VERIF_ALT_REPO=$wt VERIF_ALT_HARNESS=$hz VERIF_ALT_OUT=$out ./check "$pid" --tier "$tier" > $out/check.log 2>&1
+VERIF_ALT_REPO=$wt VERIF_ALT_HARNESS=$hz VERIF_ALT_OUT=$out VERIF_ALT_SPEC=$out/spec ./check "$pid" --tier "$tier" > $out/check.log 2>&1
 rc=$?
 v=$(grep -m1 -E '^VIOLATION|^TOOL-ERROR' $out/check.log)
 mkdir -p /tmp/mut; cp $out/check.log /tmp/mut/priv-$(basename $(dirname $patch))-$pid.log
